@@ -2036,8 +2036,15 @@ static int64_t wrap_to_type(Type *ty, int64_t val) {
 static int64_t eval2(Node *node, char ***label) {
   add_type(node);
 
-  if (is_flonum(node->ty))
-    return eval_double(node);
+  if (is_flonum(node->ty)) {
+    // The caller converts the value to an integer type. A value of 2^63
+    // or more fits in an unsigned 64-bit type only: return its bit
+    // pattern, since converting it to int64_t is undefined.
+    long double val = eval_double(node);
+    if (val >= 0x1p63L)
+      return (uint64_t)val;
+    return val;
+  }
 
   switch (node->kind) {
   case ND_ADD:
